@@ -29,6 +29,7 @@ type wdScript struct {
 	Rounds int    `json:"rounds"`
 	WI     int    `json:"wi"`
 	RI     int    `json:"ri"`
+	Delay  int    `json:"delay"`
 }
 type wdRound struct {
 	NCopies   int  `json:"ncopies"`
@@ -128,6 +129,9 @@ func runWatchdog(id int, sc *wdScript) wdLine {
 						mc.WaitReaderBlocked(2 * time.Second)
 					} else {
 						go func() {
+							if sc.Delay > 0 {
+								time.Sleep(time.Duration(sc.Delay) * time.Millisecond)
+							}
 							mc.Feed(dwa)
 						}()
 					}
